@@ -120,7 +120,7 @@ type traceObserverSupportability struct {
 func newTraceObserverWithWorker(cfg *Config) (*TraceObserver, func()) {
 	to := &TraceObserver{
 		messages:                  make(chan *spanBatch, cfg.QueueSize),
-		messagesSent:              make(chan uint64, cfg.QueueSize),
+		messagesSent:              make(chan uint64, cfg.QueueSize+1), // every queued batch plus the one being sent
 		messagesRemainingCapacity: cfg.QueueSize,
 		initiateShutdown:          make(chan struct{}),
 		initiateAppShutdown:       make(chan struct{}),
